@@ -299,7 +299,11 @@ impl<T: SimTy> SimTy for Vec<T> {
         SType::vec(T::sim_type(env))
     }
     fn gen(rng: &mut Rng, size: usize) -> Self {
-        let n = if size == 0 { 0 } else { len_for(rng, size) };
+        let mut n = if size == 0 { 0 } else { len_for(rng, size) };
+        // one-byte and zero-sized elements: sometimes a length at which the LEB128 prefix grows
+        if std::mem::size_of::<T>() <= 1 && size > 0 && rng.chance(1, 48) {
+            n = *rng.pick(&crate::models::gen::LEN_BOUNDARIES);
+        }
         (0..n).map(|_| T::gen(rng, sub(size))).collect()
     }
     fn av(&self, c: bool) -> AV {
